@@ -324,6 +324,12 @@ def _symbolic_for(interp, s, frame, state, space):
                 raise EngineError(f"loop body leaves the loop ({kinds}) — needs a written summary")
     if len(normal) != 1:
         if not normal:
+            raises = [o for o in abnormal if o[2][0] == "raise"]
+            if raises and len(raises) == len(abnormal):
+                # every path of the body raises from an arbitrary (havocked) loop state, and the loop is entered (hi > lo was decided):
+                # the first iteration raises, so does the loop statement
+                del st.side[side_mark:]
+                raise PyRaise(raises[0][2][1], f"every path of the loop body raises ({raises[0][2][2]})")
             raise EngineError("loop body has no normal path")
         return _summarise_multi(interp, s, frame, st, lo, hi, item_fn, normal, i, scal_h, pre_env, pre_heap, where)
     fr1, st1 = normal[0]
